@@ -57,6 +57,8 @@ ResRels(res) == {<<k[1], k[2], k[3], res.rels[k]>> : k \in DOMAIN res.rels}
 Leafs == {N("task", ty, <<One, One>>) : ty \in DT}
 Vals1 == {One} \cup Leafs \cup {N("tuple", "", <<l>>) : l \in Leafs} \cup {N("tuple", "", <<a, b>>) : a, b \in Leafs}
          \cup {N("tuple", "", <<N("tuple", "", <<l>>)>>) : l \in Leafs} \cup {N("fdict", "", <<N("str", "k", <<>>), l>>) : l \in Leafs}
+         \cup {N("tuple", "", <<One, l>>) : l \in Leafs}                   \* a collection that begins with a scalar
+         \cup {N("tuple", "", <<N("tuple", "", <<One, l>>)>>) : l \in Leafs}
 Mids == {N("task", ty, <<v, One>>) : ty \in DT, v \in Vals1}
         \cup {N("task", ty, <<l, v>>) : ty \in DT, l \in {CHOOSE x \in Leafs : Atom(x) = "d.D3"}, v \in Vals1 \ {One}}
 MidsSmall == {m \in Mids : Kids(m)[2] = One /\ Kids(m)[1] \in (Leafs \cup {N("tuple", "", <<l>>) : l \in Leafs})}
